@@ -1369,6 +1369,13 @@ def extract_closure(src, spec, unit_rules):
         else:
             raise Unsupported(f"region kind {rg['kind']}")
         cl = {"inputs": [], "body": body, "body_is_block": is_block}
+    elif "closure_contains" in spec:
+        # the closure whose text mentions this (whitespace-free containment; the innermost such closure)
+        want = spec["closure_contains"].replace(" ", "")
+        allc = [n for n in fn["nodes"] if n["kind"] == "closure" and want in re.sub(r"\s+", "", src.text(*n["range"]))]
+        if not allc:
+            raise LostAnchor(f"closure mentioning `{spec['closure_contains']}` of {spec['path']}")
+        cl = min(allc, key=lambda n: n["range"][1] - n["range"][0])
     elif "closure_n" in spec:
         # the k-th closure of the function, wherever it stands (e.g. the argument of `iter::from_fn`): an
         # FnMut closure run once per call with mutable access to what it captured
